@@ -48,6 +48,9 @@ fn invariant(sm: &SourceMap, stage: &str) -> Result<Vec<(u32, u32)>, String> {
         // the i-th iterated token is the same however the iterator is driven
         let raws: Vec<sourcemap::RawToken> = toks.iter().map(|t| t.get_raw_token()).collect();
         super::common::iter_conformance(&format!("{stage}: tokens()"), || sm.tokens(), |t| t.get_raw_token(), &raws)?;
+        if sm.has_names() != (sm.get_name_count() > 0) {
+            return Err(format!("{stage}: has_names() = {} with {} names", sm.has_names(), sm.get_name_count()));
+        }
         // the list iterators against the indexed accessors
         let srcs: Vec<Option<String>> = (0..sm.get_source_count()).map(|i| sm.get_source(i).map(str::to_string)).collect();
         super::common::iter_conformance(&format!("{stage}: sources()"), || sm.sources(), |s| Some(s.to_string()), &srcs)?;
@@ -95,6 +98,7 @@ fn lookups(sm: &SourceMap, pos: &[(u32, u32)], extra: &[(u32, u32)], stage: &str
 /// `as_decoded` wraps (a clone of) `sm`: the `DecodedMap`-level lookup must answer like the map itself.
 fn lookups_via(sm: &SourceMap, as_decoded: &DecodedMap, pos: &[(u32, u32)], extra: &[(u32, u32)], stage: &str, obs: &mut Obs) -> Result<LookupStats, String> {
     let mut st = LookupStats { exact_dup: false, between: false, before_first: false, later_line: false };
+    let raws: Vec<sourcemap::RawToken> = if pos.len() <= 200 { sm.tokens().map(|t| t.get_raw_token()).collect() } else { vec![] };
     for q in queries_for(pos, extra) {
         obs.inner_evals += 1;
         let want = ref_lookup_index(pos, q);
@@ -122,6 +126,32 @@ fn lookups_via(sm: &SourceMap, as_decoded: &DecodedMap, pos: &[(u32, u32)], extr
                 return Err(format!(
                     "{stage}: {how}{q:?} returned {g:?}; the linear scan over tokens() allows {} {acceptable:?} (positions {pos:?})",
                     if exact { "exactly the first token at the position:" } else { "any of" }
+                ));
+            }
+        }
+        // TokenIter::seek positions the iterator right behind the token a lookup lands on
+        if !raws.is_empty() || pos.is_empty() {
+            let seeked = guard(|| {
+                let mut it = sm.tokens();
+                let found = it.seek(q.0, q.1);
+                (found, it.take(3).map(|t| t.get_raw_token()).collect::<Vec<_>>())
+            })
+            .map_err(|p| format!("{stage}: tokens().seek{q:?}: {p}"))?;
+            let ks: Vec<usize> = match want {
+                None => vec![],
+                Some(i) if exact => vec![i],
+                Some(i) => (0..pos.len()).filter(|k| pos[*k] == pos[i]).collect(),
+            };
+            let ok = match want {
+                None => !seeked.0 && seeked.1 == raws[..raws.len().min(3)],
+                Some(_) => seeked.0 && ks.iter().any(|k| seeked.1 == raws[(k + 1).min(raws.len())..(k + 4).min(raws.len())]),
+            };
+            if !ok {
+                return Err(format!(
+                    "{stage}: tokens().seek{q:?} = {} and the iterator continues with {:?}; lookup lands on index {ks:?} of {} tokens (a failed seek must leave the iterator where it was)",
+                    seeked.0,
+                    seeked.1,
+                    raws.len()
                 ));
             }
         }
